@@ -396,6 +396,138 @@ def gen_kind_harnesses(prefix, kind, info, syntax):
     return "\n\n".join(L) + "\n\n"
 
 
+def gen_unmarshal_harnesses(prefix, kind, info, syntax):
+    """C06 / C07 / C10 harnesses for one per-kind message."""
+    k, typ, gt, wire = kind
+    msg = prefix + k
+    nums = dict(info["fields"])
+    wt = WT[wire]
+    L = []
+
+    def val(name):
+        return nondet(kind, '"' + name + '"')
+
+    def keyed(b, num, v):
+        return f'{b} = protowire.AppendTag({b}, {num}, {wt})\n\t' + append_value(kind, b, v)
+
+    unknown = 'in = protowire.AppendVarint(protowire.AppendTag(in, 77, protowire.VarintType), 5) // a field the schema does not define'
+
+    # singular fields
+    singles = ([("F", nums["f"], False)] if syntax == "proto3" else []) + [("O", nums["o"], True)]
+    for fname, num, ptr in singles:
+        pre = f'mk_{msg}_{fname}(m, "d_")'
+        got = "m." + fname
+        if ptr and k != "Bytes":
+            got = "*m." + fname
+        if wire == "bytes":
+            L.append(f'func H_C06_{msg}_{fname}() {{ c06_{msg}_{fname}(false) }}')
+            L.append(f'func H_C10_{msg}_{fname}() {{ c06_{msg}_{fname}(true) }}')
+            L.append(f'func c06_{msg}_{fname}(aliasCheck bool) {{')
+        else:
+            L.append(f'func H_C06_{msg}_{fname}() {{')
+        L.append(f'\tm := &{msg}{{}}\n\t{pre} // the destination is pre-populated: the result must not depend on it')
+        L.append(f'\tv1 := {val("v1")}\n\tv2 := {val("v2")}')
+        L.append('\tin := pbBuf()')
+        L.append('\t' + keyed("in", num, "v1"))
+        L.append('\t' + unknown)
+        L.append('\t' + keyed("in", num, "v2"))
+        L.append('\terr := m.Unmarshal(in)')
+        L.append('\tverifAssert(err == nil, "Unmarshal accepts a valid encoding (singular field occurring twice, unknown field interleaved)")')
+        if ptr:
+            L.append(f'\tverifAssert(m.{fname} != nil, "the field is present after decoding")')
+            L.append(f'\tif m.{fname} != nil {{\n\t\tverifAssert({eq(kind, got, "v2")}, "a singular field occurring twice takes the last value")\n\t}}')
+        else:
+            L.append(f'\tverifAssert({eq(kind, got, "v2")}, "a singular field occurring twice takes the last value")')
+        L.append('\tverifAssertDecodesLikeRef(m, in, "Unmarshal result equals the message the reference runtime decodes")')
+        if wire == "bytes":
+            L.append('\tif aliasCheck {\n\t\tverifAssertNoAlias(m, in, "safe-mode decoding does not alias the input buffer")\n\t}')
+        L.append('\tverifReach("end")\n}')
+
+    # repeated fields: every legal wire form for both declared packings
+    reps = ["R"] + (["U"] if syntax == "proto3" and is_numeric(kind) else []) + (["P"] if syntax == "proto2" and is_numeric(kind) else [])
+    for rf in reps:
+        num = nums[rf.lower()]
+        if wire == "bytes":
+            L.append(f'func H_C06_{msg}_{rf}() {{ c06_{msg}_{rf}(false) }}')
+            L.append(f'func H_C10_{msg}_{rf}() {{ c06_{msg}_{rf}(true) }}')
+            L.append(f'func c06_{msg}_{rf}(aliasCheck bool) {{')
+        else:
+            L.append(f'func H_C06_{msg}_{rf}() {{')
+        L.append(f'\tm := &{msg}{{}}\n\tmk_{msg}_{rf}(m, "d_", 1)')
+        L.append(f'\tv1 := {val("v1")}\n\tv2 := {val("v2")}\n\tv3 := {val("v3")}')
+        L.append('\tin := pbBuf()')
+        if is_numeric(kind):
+            L.append('\tshape := nondetInt("shape")\n\tverifAssume(shape >= 0)\n\tverifAssume(shape <= 3)')
+            L.append('\twant := 3')
+            L.append('\tswitch verifConcretize(shape) {')
+            L.append('\tcase 0: // three unpacked occurrences')
+            for v in ("v1", "v2", "v3"):
+                L.append('\t\t' + keyed("in", num, v).replace("\n\t", "\n\t\t"))
+                if v == "v1":
+                    L.append('\t\t' + unknown)
+            L.append('\tcase 1: // one packed run')
+            L.append('\t\tpl := make([]byte, 0, 64)')
+            for v in ("v1", "v2", "v3"):
+                L.append('\t\t' + append_value(kind, "pl", v))
+            L.append(f'\t\tin = protowire.AppendBytes(protowire.AppendTag(in, {num}, protowire.BytesType), pl)')
+            L.append('\tcase 2: // split: packed run, unknown field, unpacked occurrence, empty packed run')
+            L.append('\t\tpl := make([]byte, 0, 64)')
+            for v in ("v1", "v2"):
+                L.append('\t\t' + append_value(kind, "pl", v))
+            L.append(f'\t\tin = protowire.AppendBytes(protowire.AppendTag(in, {num}, protowire.BytesType), pl)')
+            L.append('\t\t' + unknown)
+            L.append('\t\t' + keyed("in", num, "v3").replace("\n\t", "\n\t\t"))
+            L.append(f'\t\tin = protowire.AppendBytes(protowire.AppendTag(in, {num}, protowire.BytesType), nil)')
+            L.append('\tdefault: // unpacked occurrence followed by a packed run')
+            L.append('\t\t' + keyed("in", num, "v1").replace("\n\t", "\n\t\t"))
+            L.append('\t\tpl := make([]byte, 0, 64)')
+            for v in ("v2", "v3"):
+                L.append('\t\t' + append_value(kind, "pl", v))
+            L.append(f'\t\tin = protowire.AppendBytes(protowire.AppendTag(in, {num}, protowire.BytesType), pl)')
+            L.append('\t}')
+        else:
+            L.append('\twant := 3')
+            for v in ("v1", "v2", "v3"):
+                L.append('\t' + keyed("in", num, v))
+                if v == "v1":
+                    L.append('\t' + unknown)
+        L.append('\terr := m.Unmarshal(in)')
+        L.append('\tverifAssert(err == nil, "Unmarshal accepts every legal wire form of a repeated field (packed, unpacked, split)")')
+        L.append(f'\tverifAssert(len(m.{rf}) == want, "all elements are decoded, in wire order, and nothing of the previous contents remains")')
+        L.append(f'\tif len(m.{rf}) == 3 {{')
+        L.append(f'\t\tverifAssert3({eq(kind, "m."+rf+"[0]", "v1")}, {eq(kind, "m."+rf+"[1]", "v2")}, {eq(kind, "m."+rf+"[2]", "v3")}, "elements equal the encoded values")')
+        L.append('\t}')
+        L.append('\tverifAssertDecodesLikeRef(m, in, "Unmarshal result equals the message the reference runtime decodes")')
+        if wire == "bytes":
+            L.append('\tif aliasCheck {\n\t\tverifAssertNoAlias(m, in, "safe-mode decoding does not alias the input buffer")\n\t}')
+        L.append('\tverifReach("end")\n}')
+
+    # C07: unknown fields of all four wire types around a known field survive Unmarshal -> Marshal
+    fname, num = (("F", nums["f"]) if syntax == "proto3" else ("O", nums["o"]))
+    L.append(f'func H_C07_{msg}() {{')
+    L.append(f'\tv := {val("v")}')
+    if syntax == "proto3":
+        L.append(f'\tverifAssume({nonzero(kind, "v")}) // a proto3 default value is not re-emitted; presence is C05/C06\'s subject')
+        if k == "Float":
+            L.append('\tverifAssume(math.Float32bits(v) != 0x80000000)')
+        if k == "Double":
+            L.append('\tverifAssume(math.Float64bits(v) != 0x8000000000000000)')
+    if wire == "varint" and k != "Bool":
+        L.append('\tverifAssume(v > 0)\n\tverifAssume(v < 64) // value sizes are not this property\'s subject')
+    L.append('\tknown := pbBuf()')
+    L.append('\t' + keyed("known", num, "v"))
+    L.append('\tu1, u2 := pbUnknown(1), pbUnknown(2)')
+    L.append('\tin := make([]byte, 0, 256)')
+    L.append('\tin = append(in, u1...)\n\tin = append(in, known...)\n\tin = append(in, u2...)')
+    L.append(f'\tm := &{msg}{{}}')
+    L.append('\tverifAssert(m.Unmarshal(in) == nil, "Unmarshal accepts unknown fields")')
+    L.append('\twant := make([]byte, 0, 256)')
+    L.append('\twant = append(want, known...)\n\twant = append(want, u1...)\n\twant = append(want, u2...)')
+    L.append('\tpbC07(m, want)')
+    L.append('}')
+    return "\n".join(L) + "\n\n"
+
+
 def main():
     os.makedirs(os.path.join(ROOT, "schemas"), exist_ok=True)
     s3, m3 = p3_schema()
@@ -407,13 +539,16 @@ def main():
         os.makedirs(d, exist_ok=True)
         helpers = HEADER % pkg
         harn = HEADER % pkg
+        unm = HEADER % pkg
         for kind in KINDS:
             helpers += gen_kind_helpers(pkg, prefix, kind, msgs[kind[0]], syntax)
             harn += gen_kind_harnesses(prefix, kind, msgs[kind[0]], syntax)
+            unm += gen_unmarshal_harnesses(prefix, kind, msgs[kind[0]], syntax)
         sup = open(os.path.join(VERIF, "harness", "pbsupport.go.tmpl")).read().replace("package PKG", "package " + pkg)
         open(os.path.join(d, "gen_support.go"), "w").write(sup)
         open(os.path.join(d, "gen_helpers.go"), "w").write(helpers)
         open(os.path.join(d, "gen_harness.go"), "w").write(harn)
+        open(os.path.join(d, "gen_unmarshal.go"), "w").write(unm)
     print("schemas and harness code written")
 
 
